@@ -390,6 +390,22 @@ def c19_2(ctx: Ctx) -> RuleResult:
         excl = any(a == b and p != q for a, p in le for b, q in ld)
         if not excl:
             explicit_ok = False
+        # ... and that test asks whether a '/' is present, never whether the part after it is non-empty:
+        # `name/` names a plug-in (with an empty method), it is not a bare method called `name`
+        def _tail_of_split(t_):
+            if t_[0] in ("item", "sub") and t_[1][0] == "call" and t_[1][1][0] == "attr":
+                k_ = t_[2] if t_[0] == "item" else (t_[2][1] if t_[2][0] == "const" else None)
+                meth = t_[1][1][2]
+                return (meth == "partition" and k_ in (2, -1)) or (meth == "split" and k_ in (1, -1)) or (meth == "rpartition" and k_ in (2, -1))
+            return False
+
+        seps = [a for a, p in le for b, q in ld if a == b and p != q]
+        tail_tests = [a for a in seps if _tail_of_split(a) or (a[0] == "cmp" and a[1] in ("==", "!=") and any(_tail_of_split(x) for x in (a[2], a[3])))
+                      or (a[0] == "call" and a[1] == ("builtin", "len") and a[2] and _tail_of_split(a[2][0]))]
+        ok_sep = not tail_tests or len(tail_tests) < len(set(seps))
+        res.add(get, get.node, "the explicit and the discovery lookup are separated by the presence of '/', not by the method part being non-empty", ok_sep,
+                "" if ok_sep else f"the branch is chosen on `{show(tail_tests[0], 70)}`: a request `name/` (empty method part) is looked up as the bare method `name` in every discoverable plug-in",
+                construct="get_plugin: explicit / discovery separator")
     res.add(get, get.node, "an explicit `plugin/method` consults only the named plug-in and returns it iff it exists and supports the method", explicit_ok,
             "" if explicit_ok else "the explicit path does not return exactly the named, supporting plug-in", construct="get_plugin: explicit path")
     res.add(get, get.node, "a bare method name returns the first plug-in in registry order with allows_discovery and is_supported", disc_ok,
